@@ -91,6 +91,7 @@ void leg_feed(const std::vector<uint8_t> &stream, unsigned cap, std::string &sts
             packets.push_back(raw);
         }
     }
+    if (cap == 0) (void)sline_getline(leg_line(&a));   // round 3b: no terminator into a zero-length region
     free(base);
 }
 
